@@ -323,7 +323,7 @@ class Engine:
         self._epoch_manager = EpochManager(epoch_configs)
         self._warmup_has_ended = False
 
-        if not position_keys:
+        if position_keys is None:
             position_keys = [
                 key
                 for ker in self._kernel_sequence._kernels  # FIXME: use of private field
